@@ -375,11 +375,8 @@ func compileStruct(typ *runtime.Type, structName, fieldName string, structTypeTo
 					// recursive definition
 					continue
 				}
-				for k, v := range stDec.fieldMap {
-					if k != v.key {
-						// the lower-case alias of a member, not a member name
-						continue
-					}
+				for _, v := range stDec.promotedFields() {
+					k := v.key
 					if tags.ExistsKey(k) {
 						continue
 					}
@@ -407,11 +404,8 @@ func compileStruct(typ *runtime.Type, structName, fieldName string, structTypeTo
 					)
 				}
 				if dec, ok := contentDec.(*structDecoder); ok {
-					for k, v := range dec.fieldMap {
-						if k != v.key {
-							// the lower-case alias of a member, not a member name
-							continue
-						}
+					for _, v := range dec.promotedFields() {
+						k := v.key
 						if tags.ExistsKey(k) {
 							continue
 						}
@@ -467,7 +461,9 @@ func compileStruct(typ *runtime.Type, structName, fieldName string, structTypeTo
 		}
 	}
 	foldFieldMap := map[string]*structFieldSet{}
-	for _, set := range filterDuplicatedFields(allFields) {
+	filtered, ambiguous := filterDuplicatedFields(allFields)
+	structDec.ambiguousFields = ambiguous
+	for _, set := range filtered {
 		fieldMap[set.key] = set
 		lower := strings.ToLower(set.key)
 		if _, exists := fieldMap[lower]; !exists {
@@ -485,12 +481,30 @@ func compileStruct(typ *runtime.Type, structName, fieldName string, structTypeTo
 	return structDec, nil
 }
 
-func filterDuplicatedFields(allFields []*structFieldSet) []*structFieldSet {
+// promotedFields returns what a struct that embeds d sees of it: the fields of d, and the
+// fields d dropped because their name is ambiguous in d ( they are ambiguous in every struct
+// that embeds d as well, and hide the fields of that name that lie deeper ).
+func (d *structDecoder) promotedFields() []*structFieldSet {
+	fields := make([]*structFieldSet, 0, len(d.fieldMap)+len(d.ambiguousFields))
+	for k, v := range d.fieldMap {
+		if k != v.key {
+			// the lower-case alias of a member, not a member name
+			continue
+		}
+		fields = append(fields, v)
+	}
+	return append(fields, d.ambiguousFields...)
+}
+
+// filterDuplicatedFields returns the fields that are members of the struct, and the fields at
+// the shallowest depth of every name that is ambiguous there.
+func filterDuplicatedFields(allFields []*structFieldSet) ([]*structFieldSet, []*structFieldSet) {
 	fieldMap := map[string][]*structFieldSet{}
 	for _, field := range allFields {
 		fieldMap[field.key] = append(fieldMap[field.key], field)
 	}
 	winners := map[*structFieldSet]struct{}{}
+	dropped := map[*structFieldSet]struct{}{}
 	for _, sets := range fieldMap {
 		// the fields at the shallowest embedding depth hide every deeper one of the same name
 		minDepth := sets[0].depth
@@ -505,20 +519,33 @@ func filterDuplicatedFields(allFields []*structFieldSet) []*structFieldSet {
 				shallowest = append(shallowest, set)
 			}
 		}
-		shallowest = filterFieldSets(shallowest)
-		if len(shallowest) == 1 {
-			winners[shallowest[0]] = struct{}{}
+		preferred := filterFieldSets(shallowest)
+		switch len(preferred) {
+		case 1:
+			winners[preferred[0]] = struct{}{}
+		case 0:
+			for _, set := range shallowest {
+				dropped[set] = struct{}{}
+			}
+		default:
+			for _, set := range preferred {
+				dropped[set] = struct{}{}
+			}
 		}
 	}
 
 	filtered := make([]*structFieldSet, 0, len(allFields))
+	ambiguous := []*structFieldSet{}
 	for _, field := range allFields {
+		if _, exists := dropped[field]; exists {
+			ambiguous = append(ambiguous, field)
+		}
 		if _, exists := winners[field]; !exists {
 			continue
 		}
 		filtered = append(filtered, field)
 	}
-	return filtered
+	return filtered, ambiguous
 }
 
 func filterFieldSets(sets []*structFieldSet) []*structFieldSet {
